@@ -51,6 +51,7 @@ package timeutil
 //@ pure kFamilyStart(k int, seg int64, fam int) int64 = ite(k == 1, seg + int64(fam) * 3600000, ite(k == 2, cal_date(cal_year(seg / 1000), cal_month(seg / 1000), fam) * 1000, cal_date(cal_year(seg / 1000), fam, 1) * 1000))
 //@ pure isFamilyStart(k int, s int64) bool = calMs(s) && ite(k == 1, true, ite(k == 2, s == msDayStart(s), s == msMonthStart(s)))
 //@ lemma k_contain prop C13 using *: all(k, "int", all(t, "int64", (kindOK(k) && tsOK(t)) ==> (kFamilyTime(k, t) <= t && t <= kFamilyEnd(k, kFamilyTime(k, t)) && isFamilyStart(k, kFamilyTime(k, t)))))
+//@ lemma k_range_is_family prop C13 C16 using *: all(k, "int", all(t, "int64", all(u, "int64", (kindOK(k) && tsOK(t) && tsOK(u)) ==> ((kFamilyTime(k, t) <= u && u <= kFamilyEnd(k, kFamilyTime(k, t))) == (kFamilyTime(k, u) == kFamilyTime(k, t))))))
 //@ lemma k_compose prop C13 using *: all(k, "int", all(t, "int64", (kindOK(k) && tsOK(t)) ==> (kFamilyStart(k, kSeg(k, t), kFamily(k, t, kSeg(k, t))) == kFamilyTime(k, t) && calMs(kSeg(k, t)) && kSeg(k, t) <= t)))
 
 //@ func IntervalCalculator.CalcSegmentTime
